@@ -19,6 +19,18 @@ Fixpoint assoc_pairs (l : list (bytes * V)) (s : bytes) : option V :=
   | (k, v) :: r => if beqb k s then Some v else assoc_pairs r s
   end.
 
+(* what a Go map holds after a history of "replace the content by these pairs" requests, of
+   which those with unequal slice lengths are refused: the pairs of the last accepted one *)
+Fixpoint last_accepted (cur : option (list bytes * list V)) (h : list (list bytes * list V))
+  : option (list bytes * list V) :=
+  match h with
+  | [] => cur
+  | (kk, vv) :: r => last_accepted (if (length kk =? length vv)%nat then Some (kk, vv) else cur) r
+  end.
+
+Definition answer (cur : option (list bytes * list V)) (s : bytes) : option V :=
+  match cur with Some (kk, vv) => assoc kk vv s | None => None end.
+
 (* ---- canonical order of an enumeration: merge sort by key, bytewise lexicographic
         (the order of Go's string comparison).  Executable checking code, no proofs needed:
         it is applied identically to the model's, the expected and (implicitly, in Go) the
@@ -64,3 +76,4 @@ Definition key_sort (l : list (bytes * V)) : list (bytes * V) := msort_fuel (len
 
 End Assoc.
 Arguments assoc {V}. Arguments assoc_pairs {V}. Arguments key_sort {V}.
+Arguments last_accepted {V}. Arguments answer {V}.
